@@ -1279,6 +1279,9 @@ class Recorder:
         self.account(mon, b, label)
         if mon.violation is not None:
             self.add_violation(mon.violation, text, label, recipe)
+        elif mon.harness_error is not None and mon.harness_error.startswith('no documented-safe pass'):
+            # the random planner ran out of draws for a LATER pass: the passes already monitored stand, the program just ends early
+            self.count('programs_cut_short_for_lack_of_a_safe_pass')
         elif mon.harness_error is not None:
             self.count('programs_with_harness_error')
             self.note_error(f'{label} w={b.w}: {mon.harness_error}')
